@@ -153,4 +153,47 @@ def startDecision (flowId : String) (params : List Param) (ev : Ctx) (insts : Op
       | some i => if !child then .ok (.reuse i) else .ok (.create (some i))
       | none => .ok (.create none)
 
+/-! ### a history of `activate` calls of one flow -/
+
+/-- one `activate f(..)` statement reached by a live flow other than `f`: the user-written arguments
+    evaluated in the caller, the number of positionals, the uid the expansion made up, the caller -/
+structure ActCall where
+  ua : Ctx
+  k : Nat
+  uid : Nat
+  caller : Nat
+  deriving Repr, Inhabited
+
+/-- `started_instance.activated = started_instance.activated + 1` -/
+def bump : Nat → List ActInst → List ActInst
+  | _, [] => []
+  | 0, a :: r => { a with activated := a.activated + 1 } :: r
+  | j + 1, a :: r => a :: bump j r
+
+/-- what the StartFlow event of one `activate` call does to `state.flow_id_states[flow]`: nothing
+    (ignored), one counter bumped (served by a running activation), or a new instance appended — the
+    one `create_flow_instance` builds from the event; after `_start_flow` it is activated once and its
+    parent is the (live, different) calling flow. -/
+def activateStepEv (flow : String) (params rets : List Param) (src : Source) (l : List ActInst) (ev : Ctx) :
+    Except Err (List ActInst) :=
+  match startDecision flow params ev (some l) src with
+  | .error e => .error e
+  | .ok .ignored => .ok l
+  | .ok (.reuse j) => .ok (bump j l)
+  | .ok (.create _) =>
+    match createFlowInstance flow params rets ev with
+    | .error e => .error e
+    | .ok f0 => .ok (l ++ [{ activated := 1, parentAlive := true, parentSameFlow := false, arguments := f0.arguments }])
+
+def activateStep (flow : String) (params rets : List Param) (src : Source) (l : List ActInst) (c : ActCall) :
+    Except Err (List ActInst) :=
+  activateStepEv flow params rets src l (startArgs c.ua .activate flow c.uid c.caller)
+
+def activateAll (flow : String) (params rets : List Param) (src : Source) : List ActInst → List ActCall → Except Err (List ActInst)
+  | l, [] => .ok l
+  | l, c :: cs =>
+    match activateStep flow params rets src l c with
+    | .error e => .error e
+    | .ok l' => activateAll flow params rets src l' cs
+
 end NemoVerif.Bind
